@@ -951,6 +951,9 @@ func (a *adapter) AuthUpdRecord(uid t.Uid, scheme, unique string, authLvl auth.L
 	if isDupe(err) {
 		return t.ErrDuplicate
 	}
+	if err != nil {
+		return err
+	}
 
 	if count, _ := resp.RowsAffected(); count <= 0 {
 		return t.ErrNotFound
@@ -2971,9 +2974,11 @@ func (a *adapter) CredUpsert(cred *t.Credential) (bool, error) {
 			return false, err
 		}
 		// Assume that the record exists and try to update it: undelete, update timestamp and response value.
-		res, err := tx.Exec("UPDATE credentials SET updatedat=?,deletedat=NULL,resp=?,done=0 WHERE synthetic=?",
+		res, err2 := tx.Exec("UPDATE credentials SET updatedat=?,deletedat=NULL,resp=?,done=0 WHERE synthetic=?",
 			cred.UpdatedAt, cred.Resp, synth)
-		if err != nil {
+		if err2 != nil {
+			// Assign to the outer err to ensure the transaction is rolled back.
+			err = err2
 			return false, err
 		}
 		// If record was updated, then all is fine.
